@@ -261,6 +261,13 @@ def _mutseq_check(prop, tier, judge_name):
             if obs.get('opt_list') is not None:
                 want = [norm_mutation(m) for m in rec['optlist']]
                 have = [norm_mutation(m) for m in obs['opt_list']]
+                # a boolean column has two values: the tokens i and p are the same value there
+                boolf = set((m['m'], m['f']) for m in seq if m['k'] in ('Add', 'Chg') and m.get('ftype') == 'Bool')
+                if boolf:
+                    for lst in (want, have):
+                        for m in lst:
+                            if m.get('init') == 'p' and m['k'] in ('Add', 'Chg'):
+                                m['init'] = 'i'
                 if want != have and rec['optOk']:
                     report.spec_drift('optimised list differs from Optimizer.tla for %s' % label,
                                       {'spec': [short(m) for m in want],
@@ -278,6 +285,10 @@ def _mutseq_check(prop, tier, judge_name):
                 if clause in ('OptSameSig', 'TwoPassSameSig') and any(
                         c in ('opt-rejected', 'pipeline-rejected') for c, _ in fails):
                     continue        # no signature to compare: the run was refused (a violation already)
+                if clause in ('OptSameData', 'TwoPassSameData') and any(
+                        m['k'] in ('Add', 'Chg') and m.get('ftype') == 'Bool' for m in seq) and \
+                        set(m.get('init') for m in seq) >= {'i', 'p'}:
+                    continue        # two tokens, one value: a boolean column has no third value
                 if clause not in seen and obs.get('ref', {}).get('ok'):
                     report.spec_drift('Optimizer.tla predicts %s for %s but the code satisfies it'
                                       % (clause, label))
